@@ -171,7 +171,7 @@ def execute(case, force_subprocess=False):
                 if not (real_last_import < line_of and pre_end < real_first_class):
                     V("preamble_misplaced", f"preamble at line {line_of}, last import {real_last_import}, first class {real_first_class}: {rest[:240]!r}")
         if preamble is not None and not p:
-            if rest != ref_nopre + "\n":
+            if rest.rstrip("\n") != ref_nopre.rstrip("\n"):
                 V("blank_preamble_changes_output", f"{rest[:200]!r} vs {ref_nopre[:200]!r}")
         return {"obs": [core.digest(rest)], "viol": viol, "outcome": "ok" if not viol else "bad", "show": repr(argv)[:200], "got": out,
                 "nontrivial": core.digest(case) if place != "blank" else None}
